@@ -1006,7 +1006,8 @@ pub fn one_run(ctx: &Ctx, out: &mut Outcome, run_seed: u64) {
         Box::new(SizeMonitor { prop: "C13" }),
     ];
     let sim = Sim::new(cfg, run_seed);
-    let next_id = sim.ids.iter().copied().max().unwrap_or(1000) + 10;
+    // fresh ids for clients that join later: above the ordinary initial ids (1000..1100), never a boundary id
+    let next_id = 5000 + (run_seed % 1000);
     let mut st = Star {
         sim,
         mons,
